@@ -170,9 +170,13 @@ func (fr *frame) inlineCall(callee *ssa.Function, args, bindings []T, st *State,
 	sub.params = args
 	sub.freev = bindings
 	sub.contract = c.W.Contracts[ShortName(callee)]
-	if fr.activeAtCall == nil || !c.scan {
+	// the loops that are open at this call: the callee's writes belong to them.
+	// (An iterator call has set activeAtCall itself, with its own key added.)
+	if !fr.keepActiveAtCall {
 		fr.activeAtCall = c.active
 	}
+	savedActive := c.active
+	defer func() { c.active = savedActive }()
 	savedPrefix := c.prefix
 	c.prefix = c.prefix + callee.Name() + ">"
 	c.inlineDepth++
@@ -552,7 +556,9 @@ func (fr *frame) iteratorCall(ct *Contract, cc *ssa.CallCommon, args []T, st *St
 		c.active = append(append([]string(nil), c.active...), key)
 	}
 	fr.activeAtCall = c.active
+	fr.keepActiveAtCall = true
 	fr.inlineCallWithActive(clo.fn, bargs, clo.bindings, body, pos)
+	fr.keepActiveAtCall = false
 	c.active = saved
 	if !c.scan {
 		for _, fc := range c.topFrameConds(body) {
